@@ -76,72 +76,141 @@ Section HopAsync.
     split; [eapply Permutation_NoDup; [exact P|apply seq_NoDup]|].
     intros x Hx. eapply Permutation_in; [apply Permutation_sym; exact P|exact Hx].
   Qed.
+  (* the schedule of the sequential automaton is C12's sched_trace: the cell order[curr] of the current
+     (possibly reshuffled) update order, curr advancing cyclically *)
+  Lemma sched_cells_trace : forall n a s t,
+    sched_cells (astate nat unit) sstep sched_of n a s t =
+    sched_trace nat 0 sh n (a_rand a) (a_order a) (a_curr a) (a_nsh a).
+  Proof.
+    induction n as [|n IH]; intros a s t; [reflexivity|].
+    cbn [sched_cells sched_trace]. f_equal. rewrite IH.
+    unfold seq_step1, seq_step.
+    destruct (hopfield_rule1 W r (a_inner a) (nbof1 r s (nth (a_curr a) (a_order a) 0)) (nth (a_curr a) (a_order a) 0) t) as [s' v].
+    cbn [fst a_rand a_order a_curr a_nsh]. reflexivity.
+  Qed.
 End HopAsync.
 
-(* ENERGY, end to end: cpl.evolve(initial, T, net.apply_rule, r=net.r) on an odd ring N = 2r+1 >= 3,
-   for every symmetric zero-diagonal N x N weight matrix, every shuffle outcome (any permutation, also
-   with randomize_each_cycle), every bipolar start: every row is bipolar of length N, each row differs
-   from the previous one by one Hopfield update of one cell, and 2E never increases. *)
-Theorem hopfield_async_energy : forall r W sh a0 s T a rows, 1 <= r ->
+(* TOTALITY, end to end: cpl.evolve(initial, T, AsynchronousRule(_rule, ...), r) as modelled by evolve_plain +
+   async_rule1 on an odd ring N = 2r+1 >= 3 returns for every T >= 1, every N x N matrix W, every start of length
+   N, every shuffle oracle and every admissible AsynchronousRule state; its rows are the trajectory of the
+   Hopfield updates of exactly the scheduled cells (C12's sched_trace: order[curr] of the current, possibly
+   reshuffled, order), and no call of _rule raises. *)
+Theorem hopfield_async_total : forall r W sh a0 s T, 1 <= r -> 1 <= T ->
+  shape (2 * r + 1) W -> (forall i l, Permutation l (sh i l)) ->
+  ainv1 unit (2 * r + 1) a0 -> length s = 2 * r + 1 ->
+  let cs := sched_trace nat 0 sh (T - 1) (a_rand a0) (a_order a0) (a_curr a0) (a_nsh a0) in
+  let rows := trajectory W s cs in
+  (exists a, evolve_plain (async_rule1 (hopfield_rule1 W r) sh) store_id r a0 [s] T = Ok (a, rows)) /\
+  length cs = T - 1 /\ Forall (fun c => c < 2 * r + 1) cs /\ length rows = T /\
+  Forall (fun row => length row = 2 * r + 1) rows /\
+  forall i, i < T - 1 ->
+    hopfield_rule W r (ring_nbhd (nth i rows []) (nth i cs 0) r) (nth i cs 0)
+    = Ok (nth (nth i cs 0) (nth (S i) rows []) 0%Z).
+Proof.
+  intros r W sh a0 s T Hr HT HS Hperm Ha HL. cbn zeta.
+  pose proof (evolve_total r W HS (astate nat unit) _ (ainv1 unit (2 * r + 1)) sched_of
+                (sstep_one_cell r Hr W sh Hperm) T a0 s HT Ha HL) as H.
+  cbn zeta in H. rewrite (sched_cells_trace r W sh) in H.
+  rewrite (evolve_async_seq r Hr W sh Hperm T a0 s Ha HL). exact H.
+Qed.
+
+(* ENERGY, end to end, with the schedule by name *)
+Theorem hopfield_async_energy : forall r W sh a0 s T, 1 <= r -> 1 <= T ->
   shape (2 * r + 1) W -> wsym (2 * r + 1) W -> wdiag (2 * r + 1) W ->
   (forall i l, Permutation l (sh i l)) ->
   ainv1 unit (2 * r + 1) a0 -> length s = 2 * r + 1 -> bipolar s ->
-  evolve_plain (async_rule1 (hopfield_rule1 W r) sh) store_id r a0 [s] T = Ok (a, rows) ->
-  length rows = T /\
+  let cs := sched_trace nat 0 sh (T - 1) (a_rand a0) (a_order a0) (a_curr a0) (a_nsh a0) in
+  let rows := trajectory W s cs in
+  (exists a, evolve_plain (async_rule1 (hopfield_rule1 W r) sh) store_id r a0 [s] T = Ok (a, rows)) /\
+  length rows = T /\ Forall (fun c => c < 2 * r + 1) cs /\
   nonincreasing (map (energy2 W) rows) /\
-  Forall (fun row => length row = 2 * r + 1 /\ bipolar row) rows /\
-  exists cs, Forall (fun c => c < 2 * r + 1) cs /\ rows = trajectory W s cs.
+  Forall (fun row => length row = 2 * r + 1 /\ bipolar row) rows.
 Proof.
-  intros r W sh a0 s T a rows Hr HS HSy HD Hperm Ha HL Hb Hev.
-  rewrite (evolve_async_seq r Hr W sh Hperm T a0 s Ha HL) in Hev.
-  exact (evolve_energy r W HS (astate nat unit) _ (ainv1 unit (2 * r + 1)) sched_of
-           (sstep_one_cell r Hr W sh Hperm) T a0 s a rows HSy HD Ha HL Hb Hev).
+  intros r W sh a0 s T Hr HT HS HSy HD Hperm Ha HL Hb. cbn zeta.
+  pose proof (evolve_energy r W HS (astate nat unit) _ (ainv1 unit (2 * r + 1)) sched_of
+                (sstep_one_cell r Hr W sh Hperm) T a0 s HT HSy HD Ha HL Hb) as H.
+  cbn zeta in H. rewrite (sched_cells_trace r W sh) in H.
+  rewrite (evolve_async_seq r Hr W sh Hperm T a0 s Ha HL). exact H.
 Qed.
 
-(* the same for a trained net with the update order HopfieldNet builds *)
-Theorem hopfield_net_energy : forall N p0 P W sh rand s T a rows,
-  Nat.odd N = true -> 3 <= N ->
+(* the net as HopfieldNet builds it: odd N >= 3, r = N // 2, update order = all cells shuffled once *)
+Lemma net_setup N sh rand : Nat.odd N = true -> 3 <= N -> (forall i l, Permutation l (sh i l)) ->
+  let r := hopfield_r N in
+  N = 2 * r + 1 /\ 1 <= r /\ ainv1 unit (2 * r + 1) (async_init_cells sh (init_order1 (2 * r + 1)) rand tt).
+Proof.
+  intros Hodd HN Hperm r. pose proof (hopfield_r_odd N Hodd) as EN. fold r in EN.
+  assert (Hr : 1 <= r) by lia. split; [exact EN|]. split; [exact Hr|]. apply (init_cells_inv r Hr sh Hperm).
+Qed.
+
+Theorem hopfield_net_total : forall N p0 P W sh rand s T,
+  Nat.odd N = true -> 3 <= N -> 1 <= T ->
+  Forall (fun p => length p = N) (p0 :: P) -> train (p0 :: P) = Ok W ->
+  (forall i l, Permutation l (sh i l)) -> length s = N ->
+  let cs := sched_trace nat 0 sh (T - 1) rand (sh 0 (seq 0 N)) 0 1 in
+  let rows := trajectory W s cs in
+  (exists a, evolve_plain (async_rule1 (hopfield_rule1 W (hopfield_r N)) sh) store_id (hopfield_r N)
+               (async_init_cells sh (init_order1 N) rand tt) [s] T = Ok (a, rows)) /\
+  length cs = T - 1 /\ Forall (fun c => c < N) cs /\ length rows = T /\
+  Forall (fun row => length row = N) rows /\
+  forall i, i < T - 1 ->
+    hopfield_rule W (hopfield_r N) (ring_nbhd (nth i rows []) (nth i cs 0) (hopfield_r N)) (nth i cs 0)
+    = Ok (nth (nth i cs 0) (nth (S i) rows []) 0%Z).
+Proof.
+  intros N p0 P W sh rand s T Hodd HN HT HP HTr Hperm HL.
+  destruct (net_setup N sh rand Hodd HN Hperm) as (EN & Hr & Ha). set (r := hopfield_r N) in *.
+  destruct (train_hebbian N p0 P HP) as (W' & HT' & HS & _ & _ & _).
+  rewrite HTr in HT'. injection HT' as <-.
+  rewrite EN in HS, HL |- *.
+  exact (hopfield_async_total r W sh _ s T Hr HT HS Hperm Ha HL).
+Qed.
+
+Theorem hopfield_net_energy : forall N p0 P W sh rand s T,
+  Nat.odd N = true -> 3 <= N -> 1 <= T ->
   Forall (fun p => length p = N) (p0 :: P) -> train (p0 :: P) = Ok W ->
   (forall i l, Permutation l (sh i l)) ->
   length s = N -> bipolar s ->
-  evolve_plain (async_rule1 (hopfield_rule1 W (hopfield_r N)) sh) store_id (hopfield_r N)
-               (async_init_cells sh (init_order1 N) rand tt) [s] T = Ok (a, rows) ->
-  length rows = T /\
+  let cs := sched_trace nat 0 sh (T - 1) rand (sh 0 (seq 0 N)) 0 1 in
+  let rows := trajectory W s cs in
+  (exists a, evolve_plain (async_rule1 (hopfield_rule1 W (hopfield_r N)) sh) store_id (hopfield_r N)
+               (async_init_cells sh (init_order1 N) rand tt) [s] T = Ok (a, rows)) /\
+  length rows = T /\ Forall (fun c => c < N) cs /\
   nonincreasing (map (energy2 W) rows) /\
-  Forall (fun row => length row = N /\ bipolar row) rows /\
-  exists cs, Forall (fun c => c < N) cs /\ rows = trajectory W s cs.
+  Forall (fun row => length row = N /\ bipolar row) rows.
 Proof.
-  intros N p0 P W sh rand s T a rows Hodd HN HP HT Hperm HL Hb Hev.
-  pose proof (hopfield_r_odd N Hodd) as EN. set (r := hopfield_r N) in *.
-  assert (Hr : 1 <= r) by lia.
+  intros N p0 P W sh rand s T Hodd HN HT HP HTr Hperm HL Hb.
+  destruct (net_setup N sh rand Hodd HN Hperm) as (EN & Hr & Ha). set (r := hopfield_r N) in *.
   destruct (train_hebbian N p0 P HP) as (W' & HT' & HS & _ & HSy & HD).
-  rewrite HT in HT'. injection HT' as <-.
-  rewrite EN in HS, HSy, HD, HL, Hev |- *.
-  exact (hopfield_async_energy r W sh _ s T a rows Hr HS HSy HD Hperm (init_cells_inv r Hr sh Hperm rand) HL Hb Hev).
+  rewrite HTr in HT'. injection HT' as <-.
+  rewrite EN in HS, HSy, HD, HL |- *.
+  exact (hopfield_async_energy r W sh _ s T Hr HT HS HSy HD Hperm Ha HL Hb).
+Qed.
+
+(* without randomize_each_cycle (what HopfieldNet uses) the schedule is the shuffled order, cyclically:
+   step t (1-based) updates cell order[(t-1) mod N], order = the constructor's shuffle of 0..N-1 *)
+Theorem hopfield_net_schedule : forall N sh T i, 1 <= N -> (forall i l, Permutation l (sh i l)) -> i < T - 1 ->
+  nth i (sched_trace nat 0 sh (T - 1) false (sh 0 (seq 0 N)) 0 1) 0 = nth (i mod N) (sh 0 (seq 0 N)) 0.
+Proof.
+  intros N sh T i HN Hperm Hi.
+  assert (HL : length (sh 0 (seq 0 N)) = N) by (rewrite <- (Permutation_length (Hperm 0 (seq 0 N))); apply seq_length).
+  rewrite trace_cyclic by (rewrite ?HL; lia). rewrite HL. reflexivity.
 Qed.
 
 (* a single stored pattern and its negation are fixed points of the real evolution *)
-Theorem hopfield_net_stored_fixed : forall N p W sh rand T a rows,
-  Nat.odd N = true -> 3 <= N -> length p = N -> bipolar p -> train [p] = Ok W ->
+Theorem hopfield_net_stored_fixed : forall N p W sh rand T,
+  Nat.odd N = true -> 3 <= N -> 1 <= T -> length p = N -> bipolar p -> train [p] = Ok W ->
   (forall i l, Permutation l (sh i l)) ->
-  (evolve_plain (async_rule1 (hopfield_rule1 W (hopfield_r N)) sh) store_id (hopfield_r N)
-                (async_init_cells sh (init_order1 N) rand tt) [p] T = Ok (a, rows) ->
-   Forall (fun row => row = p) rows) /\
-  (evolve_plain (async_rule1 (hopfield_rule1 W (hopfield_r N)) sh) store_id (hopfield_r N)
-                (async_init_cells sh (init_order1 N) rand tt) [map Z.opp p] T = Ok (a, rows) ->
-   Forall (fun row => row = map Z.opp p) rows).
+  (exists a, evolve_plain (async_rule1 (hopfield_rule1 W (hopfield_r N)) sh) store_id (hopfield_r N)
+               (async_init_cells sh (init_order1 N) rand tt) [p] T = Ok (a, repeat p T)) /\
+  (exists a, evolve_plain (async_rule1 (hopfield_rule1 W (hopfield_r N)) sh) store_id (hopfield_r N)
+               (async_init_cells sh (init_order1 N) rand tt) [map Z.opp p] T = Ok (a, repeat (map Z.opp p) T)).
 Proof.
-  intros N p W sh rand T a rows Hodd HN HL Hb HT Hperm.
-  pose proof (hopfield_r_odd N Hodd) as EN. set (r := hopfield_r N) in *.
-  assert (Hr : 1 <= r) by lia.
+  intros N p W sh rand T Hodd HN HT HL Hb HTr Hperm.
+  destruct (net_setup N sh rand Hodd HN Hperm) as (EN & Hr & Ha). set (r := hopfield_r N) in *.
   destruct (train_hebbian N p [] ltac:(constructor; [exact HL|constructor])) as (W' & HT' & HS & _ & _ & _).
-  rewrite HT in HT'. injection HT' as <-.
-  pose proof (init_cells_inv r Hr sh Hperm rand) as Ha.
-  rewrite EN in HS, HL.
+  rewrite HTr in HT'. injection HT' as <-.
+  rewrite EN in HS, HL |- *.
   destruct (evolve_stored_fixed r W HS (astate nat unit) _ (ainv1 unit (2 * r + 1)) sched_of
-              (sstep_one_cell r Hr W sh Hperm) T _ p a rows Hr HT HL Hb Ha) as [F1 F2].
-  rewrite EN.
-  split; intros Hev.
-  - apply F1. rewrite <- (evolve_async_seq r Hr W sh Hperm T _ p Ha HL). exact Hev.
-  - apply F2. rewrite <- (evolve_async_seq r Hr W sh Hperm T _ (map Z.opp p) Ha ltac:(rewrite map_length; exact HL)). exact Hev.
+              (sstep_one_cell r Hr W sh Hperm) T _ p HT Hr HTr HL Hb Ha) as [F1 F2].
+  rewrite !(evolve_async_seq r Hr W sh Hperm T _ _ Ha) by (rewrite ?map_length; exact HL).
+  split; assumption.
 Qed.
